@@ -90,16 +90,46 @@ func outcomeOf(it vocab.Item, err error) typeOutcome {
 		if nm := n.Props["name"]; nm != nil && len(nm.List) == 1 && strings.HasSuffix(nm.List[0].S, "\x00"+markerName) {
 			o.Marker = true
 		}
+		// the property only this kind declares must have come back too
+		if m, ok := kindMarkers[n.GoT]; ok && n.Props[m.Term] == nil {
+			o.Marker = false
+		}
 	} else if n != nil {
 		o.GoKind = reflect.TypeOf(it).String()
 	}
 	return o
 }
 
+// kindMarker: one property that only this struct kind declares (term, JSON value, Go setter).
+var kindMarkers = map[string]struct {
+	Term string
+	JSON any
+	Set  func(v reflect.Value)
+}{
+	"Actor":                 {"inbox", "https://example.com/marker/inbox", func(v reflect.Value) { v.FieldByName("Inbox").Set(reflect.ValueOf(vocab.IRI("https://example.com/marker/inbox"))) }},
+	"Activity":              {"object", "https://example.com/marker/object", func(v reflect.Value) { v.FieldByName("Object").Set(reflect.ValueOf(vocab.IRI("https://example.com/marker/object"))) }},
+	"IntransitiveActivity":  {"actor", "https://example.com/marker/actor", func(v reflect.Value) { v.FieldByName("Actor").Set(reflect.ValueOf(vocab.IRI("https://example.com/marker/actor"))) }},
+	"Question":              {"closed", true, func(v reflect.Value) { v.FieldByName("Closed").SetBool(true) }},
+	"Collection":            {"totalItems", 7, func(v reflect.Value) { v.FieldByName("TotalItems").SetUint(7) }},
+	"OrderedCollection":     {"totalItems", 7, func(v reflect.Value) { v.FieldByName("TotalItems").SetUint(7) }},
+	"CollectionPage":        {"partOf", "https://example.com/marker/partOf", func(v reflect.Value) { v.FieldByName("PartOf").Set(reflect.ValueOf(vocab.IRI("https://example.com/marker/partOf"))) }},
+	"OrderedCollectionPage": {"startIndex", 3, func(v reflect.Value) { v.FieldByName("StartIndex").SetUint(3) }},
+	"Place":                 {"latitude", 12.5, func(v reflect.Value) { v.FieldByName("Latitude").SetFloat(12.5) }},
+	"Profile":               {"describes", "https://example.com/marker/describes", func(v reflect.Value) { v.FieldByName("Describes").Set(reflect.ValueOf(vocab.IRI("https://example.com/marker/describes"))) }},
+	"Relationship":          {"subject", "https://example.com/marker/subject", func(v reflect.Value) { v.FieldByName("Subject").Set(reflect.ValueOf(vocab.IRI("https://example.com/marker/subject"))) }},
+	"Tombstone":             {"formerType", "Note", func(v reflect.Value) { v.FieldByName("FormerType").Set(reflect.ValueOf(vocab.ActivityVocabularyType("Note"))) }},
+	"Link":                  {"href", "https://example.com/marker/href", func(v reflect.Value) { v.FieldByName("Href").Set(reflect.ValueOf(vocab.IRI("https://example.com/marker/href"))) }},
+}
+
 func typeDoc(name, id string) map[string]any {
 	d := map[string]any{"id": id, "name": markerName}
 	if name != "" {
 		d["type"] = name
+	}
+	if k, ok := vmodel.KindOfType(name); ok {
+		if m, ok := kindMarkers[k.Name]; ok {
+			d[m.Term] = m.JSON
+		}
 	}
 	return d
 }
@@ -110,6 +140,11 @@ func buildTyped(k vmodel.StructKind, name, id string) vocab.Item {
 	p.Elem().FieldByName("ID").Set(reflect.ValueOf(vocab.IRI(id)))
 	p.Elem().FieldByName("Type").Set(reflect.ValueOf(vocab.ActivityVocabularyType(name)))
 	p.Elem().FieldByName("Name").Set(reflect.ValueOf(vocab.NaturalLanguageValues{{Ref: vocab.NilLangRef, Value: vocab.Content(markerName)}}))
+	if _, inVocab := vmodel.KindOfType(name); inVocab {
+		if m, ok := kindMarkers[k.Name]; ok {
+			m.Set(p.Elem())
+		}
+	}
 	return p.Interface().(vocab.Item)
 }
 
@@ -296,7 +331,7 @@ func init() {
 	nCtx := len(typeContexts)
 	Register(&Prop{
 		ID: "C07",
-		Rule: fmt.Sprintf("finite and enumerated completely on every run: %d vocabulary names (every name of the literal W3C table incl. the generic names and the empty name) x %d contexts (registry; JSON top level, nested in an item position, in a list position, in orderedItems; gob top level, nested in an item and a list position) x {hooks unset, hooks set}; the struct kind must be the one the table assigns, the id and the marker property must come back; family predicates, IsObject/IsLink/IsCollection methods, membership lists and the family's On/To helper must agree with the table; %d names outside the vocabulary must yield an error, nothing, or (registry) a blank untyped object - never a value of a wrong vocabulary type; outcomes with hooks installed must equal those without for every vocabulary name; distinct = cell; non-trivial = all",
+		Rule: fmt.Sprintf("finite and enumerated completely on every run: %d vocabulary names (every name of the literal W3C table incl. the generic names and the empty name) x %d contexts (registry; JSON top level, nested in an item position, in a list position, in orderedItems; gob top level, nested in an item and a list position) x {hooks unset, hooks set}; the struct kind must be the one the table assigns, the id, a marker property of the object core and a marker property that only that struct kind declares must come back; family predicates, IsObject/IsLink/IsCollection methods, membership lists and the family's On/To helper must agree with the table; %d names outside the vocabulary must yield an error, nothing, or (registry) a blank untyped object - never a value of a wrong vocabulary type; outcomes with hooks installed must equal those without for every vocabulary name; distinct = cell; non-trivial = all",
 			len(allTypeNames), nCtx, len(outsideNames)),
 		Layers: func(tier string) []Layer {
 			return []Layer{
